@@ -164,6 +164,14 @@ type FuncSpec struct {
 	Mutates  []string
 	Reveal   []string
 	Asserts  map[int][]*Clause // ghost assertions after the N-th call (source order, builtins excluded)
+	Cuts     map[int]bool      // "after call N cut:" everything learnt since entry is forgotten after these assertions
+	Use      map[int][]string  // "at call N use: l1, l2": only these callee postconditions are assumed at that call
+	// sortspec (comparator closures passed to sort.Slice)
+	SortSlice    Expr
+	SortFlag     Expr
+	SortConflict string
+	SortLess     string
+	SortTags     []string
 	Used     bool
 	fn       *ssa.Function
 }
@@ -585,7 +593,7 @@ func parseExprString(src string) (e Expr, err error) {
 
 // ---------- file-level parsing ----------
 
-var declKeywords = map[string]bool{"after": true, "assert": true, "opaque": true, "reveal": true, "import": true, "ghost": true, "fun": true, "pred": true, "ufun": true,
+var declKeywords = map[string]bool{"at": true, "sortspec": true, "after": true, "assert": true, "opaque": true, "reveal": true, "import": true, "ghost": true, "fun": true, "pred": true, "ufun": true,
 	"axiom": true, "func": true, "extern": true, "lemma": true, "requires": true, "ensures": true,
 	"modifies": true, "loop": true, "invariant": true, "pure": true, "free": true, "trusted": true, "mutates": true,
 	"package": true}
@@ -782,7 +790,7 @@ func (db *SpecDB) LoadSpecFile(path string, pkgPath string) error {
 			db.Axioms = append(db.Axioms, &Axiom{Name: name, E: e, PkgPath: pkgPath, File: path})
 			cur, curLoop, curLemma = nil, nil, nil
 		case "extern", "func":
-			fs := &FuncSpec{Loops: map[int]*LoopSpec{}, Asserts: map[int][]*Clause{}, File: path, Line: ll.line, PkgPath: pkgPath}
+			fs := &FuncSpec{Loops: map[int]*LoopSpec{}, Asserts: map[int][]*Clause{}, Cuts: map[int]bool{}, Use: map[int][]string{}, File: path, Line: ll.line, PkgPath: pkgPath}
 			curCall = 0
 			r := rest
 			if kw == "extern" {
@@ -901,14 +909,78 @@ func (db *SpecDB) LoadSpecFile(path string, pkgPath string) error {
 				return fail(ll, "trusted outside func")
 			}
 			cur.Opaque = true
+		case "at":
+			// at call N[,M,...] use: label, label
+			if cur == nil {
+				return fail(ll, "at outside func")
+			}
+			r := strings.TrimSpace(strings.TrimPrefix(rest, "call"))
+			k := strings.Index(r, "use:")
+			if k < 0 {
+				return fail(ll, "at call N use: labels")
+			}
+			var labels []string
+			for _, f := range strings.Split(r[k+4:], ",") {
+				if f = strings.TrimSpace(f); f != "" {
+					labels = append(labels, f)
+				}
+			}
+			for _, f := range strings.Split(r[:k], ",") {
+				var n int
+				fmt.Sscanf(strings.TrimSpace(f), "%d", &n)
+				if n <= 0 {
+					return fail(ll, "at call N use: labels")
+				}
+				cur.Use[n] = labels
+			}
+		case "sortspec":
+			if cur == nil {
+				return fail(ll, "sortspec outside func")
+			}
+			stags, srest := splitTags(rest)
+			cur.SortTags = stags
+			for _, part := range strings.Split(srest, ";") {
+				part = strings.TrimSpace(part)
+				if part == "" {
+					continue
+				}
+				k, v := splitLabel(part)
+				switch k {
+				case "slice", "flag":
+					e, err := parseExprString(v)
+					if err != nil {
+						return fail(ll, err)
+					}
+					if k == "slice" {
+						cur.SortSlice = e
+					} else {
+						cur.SortFlag = e
+					}
+				case "conflict":
+					cur.SortConflict = strings.TrimSpace(v)
+				case "less":
+					cur.SortLess = strings.TrimSpace(v)
+				default:
+					return fail(ll, "sortspec: unknown key "+k)
+				}
+			}
 		case "after":
 			if cur == nil {
 				return fail(ll, "after outside func")
 			}
 			var n int
-			fmt.Sscanf(strings.TrimSuffix(strings.TrimSpace(strings.TrimPrefix(rest, "call")), ":"), "%d", &n)
+			spec := strings.TrimSuffix(strings.TrimSpace(strings.TrimPrefix(rest, "call")), ":")
+			isCut := false
+			if strings.HasSuffix(strings.TrimSpace(spec), "cut") {
+				isCut = true
+				spec = strings.TrimSpace(strings.TrimSuffix(strings.TrimSpace(spec), "cut"))
+			}
+			fmt.Sscanf(spec, "%d", &n)
 			if n <= 0 {
-				return fail(ll, "after call N:")
+				return fail(ll, "after call N [cut]:")
+			}
+			if isCut {
+				cur.Cuts[n] = true
 			}
 			curCall = n
 			curLoop = nil
@@ -1053,7 +1125,7 @@ func parseModifies(s string) (out []*ModClause, err error) {
 				}
 			}()
 			mc := &ModClause{Kind: "array"}
-			if p.isId("map") {
+			if p.isId("map") || p.isOp("*") {
 				mc.TypeX = p.parseType()
 			} else {
 				name := p.ident()
